@@ -18,7 +18,7 @@ CB_THEOREMS = ["Drand.Chain.Callback." + t for t in [
     "tie_callback_put_shape", "tie_callback_queue_const"]]
 CACHE_THEOREMS = ["Drand.Beacon." + t for t in [
     "c12_cache_inv", "c12_cache_bound", "c12_rounds_listed", "c12_no_wedge", "c12_append_takes", "c12_isolation", "c12_flush_exact"]]
-THEOREMS = CB_THEOREMS  # + CACHE_THEOREMS   (DrandProofs/C12Cache.lean is being finished separately; enable when it has no sorry)
+THEOREMS = CB_THEOREMS + CACHE_THEOREMS
 TRUSTED = ["Lean 4 kernel; axioms per theorem under coverage.axioms",
            "modelled, not verified: goroutines as explicit steps, a buffered channel as a bounded FIFO list, sync.RWMutex as 'writers wait for readers and vice versa' (Go's writer preference is not needed for any statement)",
            "go2lean facts: Gen.callbackWorkerQueue, Gen.maxPartialsPerNode, Gen.callbackPutDispatchBlocking (plain send vs select/default), callbackPutHoldsReadLock, callbackPutBaseFirst, callbackAdd/RemoveLocked, callbackAddCloseSendBlocking",
